@@ -738,7 +738,14 @@ class Fxp():
             raise ValueError('Not supported input type: {}'.format(type(val)))
 
         # convert to (numpy) ndarray
-        val = np.array(val)
+        if isinstance(val, (list, tuple)):
+            _val = np.array(val)
+            if _val.dtype.kind == 'f' and all(isinstance(v, int) for v in np.array(val, dtype=object).flat):
+                # python integers beyond the 64 bits range mixed with smaller ones: numpy would convert them to float
+                _val = np.array(val, dtype=object)
+            val = _val
+        else:
+            val = np.array(val)
 
         if vdtype is None:
             vdtype = val.dtype
